@@ -80,7 +80,28 @@ func runC18(run *common.Run) {
 	}
 }
 
+// c18Hung is set when a scan was not finished within the request watchdog (drive.RPCTimeout): the server is then taken
+// to be stuck, the finding is reported once, and the remaining scans and rounds are skipped (every further request would
+// only wait for the same watchdog).
+var c18Hung atomic.Bool
+
+// c18Abort reports a request that was not answered within the watchdog, with the goroutine dump of this process (the
+// emulator runs in it: the dump shows where its handlers are blocked), writes the evidence and ends the process: every
+// further request to a stuck server would only wait for the same watchdog again.
+func c18Abort(run *common.Run, round int, what string) {
+	if !c18Hung.CompareAndSwap(false, true) {
+		select {} // another goroutine is already reporting
+	}
+	run.Count("requests_of_scan_rounds_that_hit_the_watchdog", 1)
+	run.Set("first_request_that_hit_the_watchdog", what)
+	hangVerdict(run)
+}
+
 func c18Round(run *common.Run, round int, engine string, nscans int) {
+	if c18Hung.Load() {
+		run.Count("rounds_skipped_after_a_scan_hung", 1)
+		return
+	}
 	r := run.Rand("C18.round", round)
 	N := 3000
 	if run.IsThorough() && round%3 == 0 {
@@ -200,6 +221,9 @@ func c18Round(run *common.Run, round int, engine string, nscans int) {
 				}
 				next.call, next.ret = call, clock.Tick()
 				if !st.OK() {
+					if st.Code == codes.DeadlineExceeded {
+						c18Abort(run, round, fmt.Sprintf("engine=%s round=%d: a write to %s was not answered within %s while scans were running", engine, round, key(i), drive.RPCTimeout))
+					}
 					writeErr.Store(fmt.Sprintf("write to %s failed: %s", key(i), st))
 					return
 				}
@@ -245,6 +269,7 @@ func c18Round(run *common.Run, round int, engine string, nscans int) {
 		gaps   [][2]int // index intervals inside [lo,hi] that were not requested
 		S, E   int64
 		res    drive.ReadResult
+		ran    bool
 	}
 	scans := make([]scan, nscans)
 	var swg sync.WaitGroup
@@ -271,7 +296,7 @@ func c18Round(run *common.Run, round int, engine string, nscans int) {
 			}
 			for {
 				k := int(atomic.AddInt64(&next, 1))
-				if k >= nscans {
+				if k >= nscans || c18Hung.Load() {
 					return
 				}
 				sr := common.NewRand(run.Seed, fmt.Sprintf("C18.scan.%d", round), k)
@@ -315,7 +340,10 @@ func c18Round(run *common.Run, round int, engine string, nscans int) {
 					}
 				})
 				cancel()
-				scans[k] = scan{lo: lo, hi: hi, gaps: gaps, S: s, E: clock.Tick(), res: res}
+				scans[k] = scan{lo: lo, hi: hi, gaps: gaps, S: s, E: clock.Tick(), res: res, ran: true}
+				if res.Code == codes.DeadlineExceeded {
+					c18Abort(run, round, fmt.Sprintf("engine=%s round=%d scan=%d: the scan did not end within %s (%d messages received) while writers were running", engine, round, k, drive.RPCTimeout, res.Messages))
+				}
 			}
 		}(sc)
 	}
@@ -339,7 +367,14 @@ func c18Round(run *common.Run, round int, engine string, nscans int) {
 		fail := func(what string) {
 			run.Violation("round", round, what+" | "+desc, map[string]any{"scan": desc})
 		}
+		if !sc.ran {
+			continue
+		}
 		if !sc.res.OK() {
+			if sc.res.Code == codes.DeadlineExceeded {
+				fail(fmt.Sprintf("scan did not end within %s (%d messages received; the requests of the other clients of this round: see detail); the rest of the run is skipped", drive.RPCTimeout, sc.res.Messages))
+				continue
+			}
 			fail(fmt.Sprintf("scan ended with %s: %s", sc.res.Code, sc.res.Msg))
 			continue
 		}
